@@ -10,6 +10,7 @@ CONSTANT DocMenu <- DMa1
 CONSTANT Lims <- L01
 CONSTANT MaxSteps = 6
 CONSTANT Thin = 1
+CONSTANT KeepRoleHist = FALSE
 CONSTANT PageGap = TRUE
 SPECIFICATION Spec
 VIEW view
